@@ -736,3 +736,6 @@ def check(run):
     from . import c04, c10
     run.rules_run.append("R10b")
     run.rule(c10.r10b, run, c04.in_scope_functions(run) + list(run.repo.module("utype.parser.options").functions.values()))
+    from . import c10 as _c10
+    run.rules_run.append("R18k")
+    run.rule(_c10.option_defaults, run, "R18k", {'max_depth': 'None'}, "nesting is unlimited unless max_depth is set: a default limit rejects deep valid data")
